@@ -212,8 +212,9 @@ func (c Config) MinDepositFor(base int64) int64 {
 
 // rate: the exchange rate the host's exchange-rate service answers with (nil: no such service)
 func (c Config) rate() *big.Rat {
-	if c.ExchangeRate == "" {
-		return nil
+	switch c.ExchangeRate {
+	case "", "unavailable", "malformed":
+		return nil // no service, or one that cannot answer: nothing can be exchanged
 	}
 	r, ok := new(big.Rat).SetString(c.ExchangeRate)
 	if !ok {
